@@ -335,6 +335,24 @@ func runC11(k int, rng *Rng) CaseResult {
 		}
 	}
 	// ---- Repair ----
+	// a caller that looked at the files' objects first (fills the cache with objects the index does
+	// not know yet): the answers are not judged here, Repair's outcome is
+	warmed := 0
+	if rng.P(0.5) {
+		var us []string
+		for u := range files {
+			us = append(us, u)
+		}
+		sort.Strings(us)
+		for _, u := range us {
+			if rng.P(0.7) {
+				w.call("GetByUUID", func() { w.db.GetByUUID(&Rec{}, u) })
+				warmed++
+			}
+		}
+		w.logf("read %d object(s) by uuid before Repair", warmed)
+		w.abs(fmt.Sprintf("warm%d", warmed))
+	}
 	w.call("Repair", func() { err = w.db.Repair(&Rec{}) })
 	if err != nil {
 		w.fail("repair-error", "Repair", faultClass, fmt.Sprintf("faults %v: %v", faults, err))
